@@ -38,7 +38,7 @@ def tie(ctx):
     cases = base.corpus_cases("C04") + [c for c in base.repo_test_cases() if c[0].startswith("repo:pure/") or c[0].startswith("repo:assignment/")]
     bs = base.bases(ctx, base.nbases(ctx))
     r = vlib.rng(ctx.seed, "c04-tie")
-    per = 40 if ctx.tier == "quick" else 100
+    per = 40 if ctx.tier == "quick" else 50
     for bi, (t, g) in enumerate(bs):
         plants = tg.c04_plants(t)
         for p in r.sample(plants, min(per, len(plants))):
